@@ -23,7 +23,7 @@ CASE_TIMEOUT = {"quick": 60, "thorough": 180}
 
 
 def budget(tier):
-    return 600 if tier == "quick" else 6000
+    return 900 if tier == "quick" else 9000
 
 
 def gen_case(rng, tier, k):
@@ -41,7 +41,7 @@ def gen_case(rng, tier, k):
         ops.append(["skiprem"])
         for _ in range(rng.randint(1, 4)):
             ops.append([rng.choice(["seedsq", "setsq"]), rng.randrange(64)])
-    elif rng.random() < 0.3:
+    elif rng.random() < 0.45:
         # hand-driven partial expansion of a grid-shaped lattice, attractor search in the expanded part,
         # skip completion, more attractor queries (skip nodes then rely on answers computed earlier)
         bnet = common.g_chains(rng, total_max=nmax + 1, kind=rng.choice(["maa", "burst"]))
@@ -61,7 +61,10 @@ def gen_case(rng, tier, k):
             else:
                 ops += gen_ops(rng, 1, allow_skip=True, allow_unmodelled=True)
     ins = sorted(set(rng.randrange(len(ops) + 1) for _ in range(rng.randint(1, 3))))
-    kinds = [rng.choice(["pickle", "reclaim", "pickle+reclaim"]) for _ in ins]
+    if ["skiprem"] in ops and rng.random() < 0.6:
+        # between the attractor search in the expanded part and the skip completion / the queries after it
+        ins = sorted(set(ins + [ops.index(["skiprem"]) + rng.randint(0, 1)]))
+    kinds = [rng.choice(["pickle", "reclaim", "reclaim", "pickle+reclaim"]) for _ in ins]
     case = {"bnet": bnet, "ops": ops, "insert_at": ins, "insert_kind": kinds,
             "target": [[rng.randrange(64), rng.randint(0, 1)]], "strategy": rng.choice(["internal", "all"])}
     if rng.random() < 0.4:
